@@ -193,9 +193,54 @@ def _types(ck, prog):
 def _pair(ck, prog):
     f = prog.fn(SEQ, "Sequence.swapRes")
     construct = SEQ_PATH + ":Sequence.swapRes"
+    # the index parameters may be exchanged on the way (`if index2 < index1: index1, index2 = index2, index1`): what is read before and what is
+    # written after such a statement refer to different positions when it is taken.  The pairing is decided once for each way through these
+    # statements, with the names after a taken exchange renamed back to the values they hold
+    params = [p_ for p_ in f.params() if p_ != "self"]
+    perm_stmts, other_rebinds = [], []
+    for n in ast.walk(f.node):
+        tg = n.targets if isinstance(n, ast.Assign) else ([n.target] if isinstance(n, (ast.AugAssign, ast.AnnAssign)) else [])
+        names = [x.id for t in tg for x in ast.walk(t) if isinstance(x, ast.Name) and isinstance(x.ctx, ast.Store)]
+        if not any(nm in params for nm in names):
+            continue
+        if isinstance(n, ast.Assign) and len(n.targets) == 1 and isinstance(n.targets[0], ast.Tuple) and isinstance(n.value, ast.Tuple) \
+                and all(isinstance(e, ast.Name) and e.id in params for e in n.targets[0].elts + n.value.elts) and len(n.targets[0].elts) == len(n.value.elts):
+            perm_stmts.append(n)
+        else:
+            other_rebinds.append(n)
+    ck.shape(not other_rebinds and len(perm_stmts) <= 2, "swapRes: the index parameters are only ever exchanged with each other", f.loc())
+    import itertools
+    for taken in itertools.product((False, True), repeat=len(perm_stmts)):
+        ren = []            # (line after which it applies, {name as written -> name whose original value it holds})
+        for st, tk in zip(perm_stmts, taken):
+            if tk:
+                ren.append((st.end_lineno or st.lineno, {t.id: v.id for t, v in zip(st.targets[0].elts, st.value.elts)}))
+        _pair_on(ck, prog, f, construct, ren, skip=perm_stmts,
+                 tag="" if not perm_stmts else "[%s]" % ",".join("exchanged" if t else "as-passed" for t in taken))
+
+
+def _pair_on(ck, prog, f, construct, ren, skip, tag):
+    import copy
+
+    def orig(node):
+        """index expression with each parameter name replaced by the parameter whose original value it holds at that line"""
+        m = {}
+        for line, sub in sorted(ren, key=lambda x: x[0]):
+            if getattr(node, "lineno", 0) > line:
+                m2 = dict(m)
+                for t_, v_ in sub.items():
+                    m2[t_] = m.get(v_, v_)          # after `t = v`, t holds what v held
+                m = m2
+        if not any(k != v for k, v in m.items()):
+            return unparse(node)
+
+        class R(ast.NodeTransformer):
+            def visit_Name(self, n):
+                return ast.copy_location(ast.Name(id=m.get(n.id, n.id), ctx=n.ctx), n)
+        return unparse(R().visit(copy.deepcopy(node)))
     defs, copies, stores = {}, {}, {}
     for n in ast.walk(f.node):
-        if not (isinstance(n, ast.Assign) and len(n.targets) == 1):
+        if not (isinstance(n, ast.Assign) and len(n.targets) == 1) or any(n is s_ for s_ in skip):
             continue
         t = n.targets[0]
         pairs = [(t, n.value)]
@@ -211,7 +256,7 @@ def _pair(ck, prog):
                            "self.chargePattern.copy()", "np.array(self.chargePattern)", "deepcopy(self.chargePattern)"):
                     copies[a.id] = "cp"
             elif isinstance(a, ast.Subscript) and isinstance(a.value, ast.Name):
-                stores.setdefault(a.value.id, []).append((unparse(a.slice), b))
+                stores.setdefault(a.value.id, []).append((orig(a.slice), b))
     # a working array that aliases the receiver's own pattern is an effect on the receiver (reported by EFF); here: shape
     ck.shape(sorted(copies.values()) == ["cp", "seq"], "swapRes: one copy of the residues and one copy of the charge pattern", f.loc())
 
@@ -219,7 +264,7 @@ def _pair(ck, prog):
         if isinstance(expr, ast.Subscript):
             b = unparse(expr.value)
             if (b == arr_name) or (kind == "seq" and b == "self.seq") or (kind == "cp" and b == "self.chargePattern"):
-                return (kind, unparse(expr.slice))
+                return (kind, orig(expr.slice))
         if isinstance(expr, ast.Name) and len(defs.get(expr.id, [])) == 1:
             return source(defs[expr.id][0], arr_name, kind)
         if isinstance(expr, ast.Call) and getattr(expr.func, "id", None) in ("float", "int") and len(expr.args) == 1:
@@ -238,7 +283,7 @@ def _pair(ck, prog):
     ok = sorted(pc) == idx and ps[idx[0]] == ("seq", idx[1]) and ps[idx[1]] == ("seq", idx[0]) \
         and pc[idx[0]] == ("cp", idx[1]) and pc[idx[1]] == ("cp", idx[0])
     ck.ob("PAIR-swap", construct, ok, expected="the same two indices are exchanged in the residue copy and in the charge-pattern copy, from the receiver's own values",
-          found={k: {d: v for d, v in p.items()} for k, p in perms.items()}, slot="paired-exchange", where=f.loc())
+          found={k: {d: v for d, v in p.items()} for k, p in perms.items()}, slot="paired-exchange" + tag, where=f.loc())
     seqcopy = next(n for n, k in copies.items() if k == "seq")
     cpcopy = next(n for n, k in copies.items() if k == "cp")
     ctors = [c for c in ast.walk(f.node) if isinstance(c, ast.Call) and prog.class_of_ctor(f.mod, c) == "Sequence" and len(c.args) + len(c.keywords) >= 3]
@@ -247,7 +292,7 @@ def _pair(ck, prog):
     ck.shape(cb is not None and {"seq", "dmax", "chargePattern"} <= set(cb), "swapRes: child built with (string, dmax, pattern)", f.loc(ctors[0]))
     a0, a1, a2 = [unparse(cb[k]).replace('"', "'").replace(" ", "") for k in ("seq", "dmax", "chargePattern")]
     ck.ob("PAIR-swap", construct, a0 == "''.join(%s)" % seqcopy and a1 == "self.dmax" and a2 == cpcopy,
-          expected="Sequence(''.join(<swapped residues>), self.dmax, <swapped pattern>)", found=unparse(ctors[0]), slot="child", where=f.loc(ctors[0]))
+          expected="Sequence(''.join(<swapped residues>), self.dmax, <swapped pattern>)", found=unparse(ctors[0]), slot="child" + tag, where=f.loc(ctors[0]))
 
 
 def _ctor(ck, prog):
@@ -260,6 +305,12 @@ def _ctor(ck, prog):
                 callee, b = bind_mod.bind(prog, f, c)
                 a_dmax = unparse(b["dmax"]).replace(" ", "") if b and "dmax" in b else None
                 a_cp = unparse(b["chargePattern"]).replace(" ", "") if b and "chargePattern" in b else None
+                if a_dmax is not None and "chargePattern" in a_dmax:
+                    # the second positional parameter of Sequence(...) is dmax: a charge pattern handed over positionally lands there
+                    ck.ob("CTOR-child", SEQ_PATH + ":Sequence." + m, False, expected="dmax = self.dmax (or left out)", found=unparse(c)[:90], slot="child-dmax@%d" % n, where=f.loc(c),
+                          note="the charge pattern is bound to the dmax parameter: delta-max of the child is an array, kappa() and deltaMax() on it fail")
+                    n += 1
+                    continue
                 ck.shape(a_dmax in (None, "self.dmax", "-1"), "%s: child built with a dmax lcsa cannot relate to the receiver (%s)" % (m, a_dmax), f.loc(c))
                 stale = a_cp in ("self.chargePattern", "self.chargePattern[:]", "self.chargePattern.copy()", "cp.deepcopy(self.chargePattern)", "np.copy(self.chargePattern)")
                 ok = not stale and (a_cp is None or m == "swapRes")
